@@ -658,6 +658,11 @@ class Sample(Contract):
                         z3.Implies(g["store"], z3.BoolVal(last is not None and same_pop(last, smp)))))
             if sh["max_n_steps"]:
                 out.append(("C06 C11 step cap not yet reached at loop head", it < g["max_n"]))
+            ams = s.f.get("adaptive_min_step")
+            if isinstance(ams, Z):
+                want_ams = z3.And(g["adaptive"], z3.BoolVal(bool(sh["max_n_steps"] and not sh["min_step"])))
+                out.append(("C06 C07 the adaptive minimum step is switched on exactly when this call gives max_n_steps without min_step (not left over from an earlier call)",
+                            z3.Implies(g["adaptive"], ams.e == want_ams)))
             if isinstance(e.get("min_step"), Z):
                 out.append(("min_step >= 0", to_real(e["min_step"]) >= 0))
                 if sh["min_step"]:
@@ -821,14 +826,15 @@ class Sample(Contract):
                 f"{q}:C08:log_evidence_error == sqrt(sum(history.log_norm_ratio_var))")
         it = to_int(env["iterations"])
         for nm in SERIES:
-            p.prove(list_len(h.f[nm]) == it, f"{q}:C18:len(history.{nm}) == iterations at return")
+            tg = "C18:C08" if nm in ("log_norm_ratio", "log_norm_ratio_var") else "C18"
+            p.prove(list_len(h.f[nm]) == it, f"{q}:{tg}:len(history.{nm}) == iterations at return" + (" (the evidence sums exactly one term per iteration)" if "C08" in tg else ""))
         enlarged = any(x[0] == "resample" and not isinstance(x[3], NoneV) for x in p.events)
         p.prove(list_len(h.f["mcmc_acceptance"]) == it,
                 f"{q}:C18:len(history.mcmc_acceptance) == iterations at return" + (" [after final enlargement]" if enlarged else " [no final enlargement]"))
         if enlarged:
             # C08: the enlargement leaves the evidence series untouched (sum identity above is over the same lists)
             enl = [x for x in p.events if x[0] == "resample" and not isinstance(x[3], NoneV)]
-            p.prove(z3.And(to_real(enl[-1][2]) == 1, to_int(enl[-1][3]) == g["n_final"]), f"{q}:C08:enlargement resamples at temperature 1 to n_final_samples")
+            p.prove(z3.And(to_real(enl[-1][2]) == 1, to_int(enl[-1][3]) == g["n_final"]), f"{q}:C08:C09:C05:enlargement resamples at temperature 1 to n_final_samples (whatever temperature the loop stopped at)")
             p.prove(z3.BoolVal(enl[-1][4] is s.f["rng"]), f"{q}:C20:enlargement uses the sampler's generator")
             k_enl = max(i for i, x in enumerate(p.events) if x is enl[-1])
             after = [x for x in p.events[k_enl + 1:] if x[0] == "mutate"]
